@@ -229,6 +229,9 @@ def run_loop_isolated(rel, qualname, ordinal, ctx=None, find_kw=None, inner_mode
                 st.locals[x["id"]] = ("obj", tm.sym("&L_%s" % nm, "P"))
             else:
                 st.locals[x["id"]] = tm.sym("L_%s" % nm, sort_of(q))
+    for x in A.walk(node):
+        if x.get("kind") == "VarDecl" and "id" in x and "name" in x:
+            names[x["name"]] = x["id"]           # declarations inside the loop shadow same-named ones elsewhere in the function
     info = {"names": names, "node": node, "nloops": len(loops)}
     res = ex.iterate_loop(node, st, prepare=(lambda ex_, s_: prepare(ex_, s_, info)) if prepare is not None else None)
     return fn, ex, res, info
